@@ -191,9 +191,16 @@ def replay_series(chk, case, lib, ss, objs, brief):
     period = case["period"][0] / case["period"][1]
     dt = case["dt"][0] / case["dt"][1]
     T, N = len(case["frames"]), len(case["frames"][0]["pos"])
+    # int(period / interval) of a float quotient: where the exact quotient is an integer n the window length is asserted
+    # only if the floating-point quotient of the rendered arguments is exactly n (0.3 / 0.1 lands below 3): DESIGN 3.3
+    from fractions import Fraction
+    qx = Fraction(*case["period"]) / ((case["ts"][1] - case["ts"][0]) * Fraction(*case["dt"]))
+    fragile = qx.denominator == 1 and period / ((case["ts"][1] - case["ts"][0]) * dt) != int(qx)
+    if fragile:
+        chk.tie()
     for l, (boo, phi) in objs.items():
         env = Env(lambda k: complex(phi[k[1], k[2] - 1]) if k[0] == "phi" else None)
-        for cplx in (True, False):
+        for cplx in ((True, False) if not fragile else ()):
             try:
                 avg, mid = boo.time_average(time_period=period, dt=dt, average_complex=cplx)
             except Exception as e:
